@@ -146,7 +146,7 @@ class Scenario:
             wtb = b"\xff\xfe" if wt == "\xff" else wt.encode()
             self.seq += 1
             wm = "" if r.chance(1, 8) else "w%d" % self.seq
-            wq, wr, wp = r.below(3), r.below(2), r.choice(["x", "x", "7"])
+            wq, wr, wp = r.below(3), r.below(2), r.choice(["x", "x", "7", "7d0", "3d30"])
             will = "%s,%s,%d,%d,%s" % (hx(wtb), hx(wm), wq, wr, wp)
             willd = dict(topic=wtb, payload=wm.encode(), qos=wq, retain=wr, tag=wp)
         cl = Client(name, len(self.clients), clean, alias_max, willd)
@@ -203,7 +203,9 @@ class Scenario:
             if hostile and r.chance(1, 6):
                 subs = "5"
             props = "A%s:S%s:T%d" % (alias, subs, r.choice([0, 0, 3]))
-        self.push(cl, "PUB %s %s %d %d %d 0 %s" % (hx(topic), hx(payload), qos, pkid, retain, props),
+        # a retransmission (DUP=1) is, for the broker, a publish like any other
+        dup = 1 if qos > 0 and r.chance(1, 7) else 0
+        self.push(cl, "PUB %s %s %d %d %d %d %s" % (hx(topic), hx(payload), qos, pkid, retain, dup, props),
                   ("pub", topic, payload, qos, pkid, retain, props, self.seq))
         if qos == 2:
             cl.own_qos2.append(pkid)
@@ -359,6 +361,11 @@ class Scenario:
         self.p_shared = {"shared": (2, 3)}.get(kind, (1, 3))
         self.p_clean = {"session": (1, 5), "group": (1, 1)}.get(kind, (1, 2))
         self.burst = {"window": 150}.get(kind, 40)
+        self.lazy_ack = False
+        if kind == "group" and r.chance(1, 2):
+            # members that let their window fill up: long bursts, acknowledgements are rare
+            self.burst = 150
+            self.lazy_ack = True
         for _ in range(1 + r.below(3) + (1 if kind in ("shared", "window", "group") else 0)):
             self._fresh_client(hostile)
         steps = 0
@@ -398,7 +405,7 @@ class Scenario:
                 self.consume(1 + r.below(4))
             elif act == 5:
                 self.drain(cl)
-                if r.chance(2, 3) and cl.alive:
+                if r.chance(2, 3) and cl.alive and not (self.lazy_ack and r.chance(7, 8)):
                     if cl.to_ack or cl.to_rel:
                         self.send_acks(cl, None if r.chance(1, 2) else 1 + r.below(3))
                         if r.chance(4, 5):
